@@ -87,6 +87,7 @@ class Recorder:
         self.n = 0              # number of injectable calls issued so far
         self.kinds = []         # kind of each injectable call
         self.fired = None       # (k, kind, path) when the fault fired
+        self.fired_at = None
         self.reads = []         # paths opened for reading through the wrapper
         self.bypassed = 0
 
@@ -125,6 +126,7 @@ class Recorder:
         self.kinds.append(kind)
         if self.fail_at is not None and self.n == self.fail_at and self.fired is None:
             self.fired = (self.n, kind, path)
+            self.fired_at = len(self.trace)       # number of recorded calls completed before the failing one
             return self.variant
         return None
 
@@ -212,6 +214,58 @@ class _Handle:
 
 
 # ---------------------------------------------------------------------------
+def guarded(fn, timeout=30.0):
+    """Run fn() in a forked child and return ("ok", result) | ("exc", text) | ("hang", text) | ("died", text).
+
+    fastparquet's native readers can spin forever (or crash) on torn files; signals do not interrupt native
+    loops, so everything that reads a possibly damaged dataset runs in a child that can be killed."""
+    import pickle
+    import select
+    import signal
+    import time
+    r, w = os.pipe()
+    pid = os.fork()
+    if pid == 0:
+        try:
+            os.close(r)
+            try:
+                out = ("ok", fn())
+            except BaseException as e:       # noqa
+                out = ("exc", "%s: %s" % (type(e).__name__, str(e)[:200]))
+            with os.fdopen(w, "wb") as f:
+                pickle.dump(out, f)
+        finally:
+            os._exit(0)
+    os.close(w)
+    buf = []
+    deadline = time.time() + timeout
+    hung = False
+    while True:
+        left = deadline - time.time()
+        if left <= 0:
+            hung = True
+            break
+        rd, _, _ = select.select([r], [], [], left)
+        if rd:
+            b = os.read(r, 1 << 20)
+            if not b:
+                break
+            buf.append(b)
+    os.close(r)
+    if hung:
+        try:
+            os.kill(pid, signal.SIGKILL)
+        except OSError:
+            pass
+    _, status = os.waitpid(pid, 0)
+    if hung:
+        return ("hang", "no answer within %.0f s (killed)" % timeout)
+    try:
+        return pickle.loads(b"".join(buf))
+    except Exception:
+        return ("died", "reader process ended with status %d without an answer" % status)
+
+
 def snapshot(root):
     """{relative path: bytes} of every regular file below root."""
     out = {}
